@@ -628,6 +628,9 @@ class SurfaceContainer(AbstractContainer):
         for idx in range(len(self._elements)):
             self._elements[idx].tessellator = value.__class__()
 
+        # Reset the cache
+        self.reset()
+
     @property
     def vertices(self):
         """ Vertices generated by the tessellation operation.
